@@ -307,9 +307,11 @@ def wrapper_args(img, rng, p_plain=0.4):
 
 def correspondence(ctx):
     rng = ctx.rng
-    budget = BUDGET['quick' if ctx.quick else 'thorough']
-    out = engine_correspondence(ctx, 8 if ctx.quick else 10)
-    imgs = image_stream(ctx, rng)
+    budget = dict(BUDGET['quick' if ctx.quick else 'thorough'])
+    budget['total'] = G.scale(ctx, budget['total'])
+    # ambient children: about a quarter of the work, every generator family and format kept (insp_gen.thin)
+    out = engine_correspondence(ctx, (8 if ctx.quick else 10) - (1 if G.ambient(ctx) else 0))
+    imgs = G.thin(ctx, image_stream(ctx, rng), lambda i: (i.fmt, i.tag.split('/')[0]), keep=lambda i: i.tag.startswith('known/'))
     # the known-class minority first, the rest in random order, so that no generator family is starved
     # when the model budget runs out; a quarter of the budget is kept for the InspectWrapper runs
     known = [i for i in imgs if i.tag.startswith('known/')]
@@ -322,7 +324,7 @@ def correspondence(ctx):
         pairs += pairs_for(ctx, img, rng, b_insp, spent)
     # the InspectWrapper verdict on a subset (every inspector sees the same reads)
     wrap_imgs = known + [i for i in rest if i.tag.startswith(('wf/', 'poly/'))]
-    wrap_imgs += rng.sample(rest, min(len(rest), 10 if ctx.quick else 60))
+    wrap_imgs += rng.sample(rest, min(len(rest), G.scale(ctx, 10 if ctx.quick else 60, least=3)))
     spent_w = [0]
     b_wrap = dict(budget, total=budget['total'] // 4)
     for img in wrap_imgs:
@@ -539,18 +541,20 @@ def wrapper_oracle(ctx, img, family, fails, allowed=None, expected=None, compani
                 ctx.evaluations += 1
                 ctx.count('search/wrapper-protocol/' + drive)
                 form = ctx.rng.randrange(64)
+                sub = ctx.rng.choice([None, None, 'trivial', 'override'])
                 want = run(G.drive_sizes(sizes, drive, k))
                 try:
-                    got = wrap_core('\t' + G.drive_wrapper(data, sizes, drive, allowed, expected, k, form))
+                    got = wrap_core('\t' + G.drive_wrapper(data, sizes, drive, allowed, expected, k, form, sub))
                 except Exception as e:
                     got = 'CRASH:%s:%s' % (type(e).__name__, e)
                 if got != want:
                     f = make_failure(img, G.drive_sizes(sizes, drive, k), sizes, 'wrapper-verdict-depends-on-the-consumption-protocol',
                                      'InspectWrapper(allowed_formats=%s, expected_format=%s) over chunks %s: read()+close(): %s | protocol "%s" '
-                                     '(interrupted after chunk %d, constructor call form %d): %s'
+                                     '(interrupted after chunk %d, constructor call form %d%s): %s'
                                      % (allowed, expected, G.pack_sizes(sizes)[:8], ' '.join(want.split('\t')[:2]), drive, k, form,
+                                        ', ALL_FORMATS holding %s subclasses of the inspector classes' % sub if sub else '',
                                         ' '.join(got.split('\t')[:2])), ckind='wrap')
-                    f.case.update(allowed=allowed, expected=expected, drive=drive, k=k, form=form)
+                    f.case.update(allowed=allowed, expected=expected, drive=drive, k=k, form=form, subclass=sub)
                     fails.append(f)
                     return
     # a second InspectWrapper alive at the same time, reading other data
@@ -610,7 +614,7 @@ def polyglot_wrapper_search(ctx, rng, fails, full, enough):
     after the whole stream must not depend on the reads"""
     pairs = [(a, b) for a in G.FORMATS for b in G.FORMATS if a != b and 'raw' not in (a, b)]
     if not full:
-        pairs = rng.sample(pairs, 20 if ctx.quick else 48)
+        pairs = rng.sample(pairs, G.scale(ctx, 20 if ctx.quick else 48, least=6))
     for a, b in pairs:
         data, bounds = G.polyglot(a, b, rng)
         img = G.Img(a, data, bounds, 'poly/%s+%s' % (a, b))
@@ -661,8 +665,13 @@ def search(ctx, seeds, full=False):
     ctx._c01_full = full
     # 1. the disagreeing cases first
     region_seeds = [s for s in seeds if s.get('kind') == 'region'][:200]
+    clock = G.Clock(ctx)
+
     def enough():
-        return len([f for f in fails if not classes_flat(f)]) >= 5 or len(fails) >= 60
+        new = len([f for f in fails if not classes_flat(f)])
+        if new:
+            clock.failed()
+        return new >= 5 or len(fails) >= 60 or clock.expired()
     for s in [s for s in seeds if s.get('kind') in ('insp', 'wrap')][:40]:
         img = img_of_case(s)
         fam = [('seed', G.unpack_sizes(s['sizes']))] + search_family(ctx, img, rng, True)
@@ -678,20 +687,21 @@ def search(ctx, seeds, full=False):
         if enough():
             break
     # 2. the capture engine alone, exhaustively
-    fails += engine_search(ctx, 8 if ctx.quick else 10, region_seeds)
+    fails += engine_search(ctx, (8 if ctx.quick else 10) - (1 if G.ambient(ctx) else 0), region_seeds)
     # 3. generated streams
     rounds = (2 if full else 1) if ctx.quick else (4 if full else 2)
     for _ in range(rounds):
         if enough():
             break
-        imgs = image_stream(ctx, rng, for_search=True)
+        imgs = G.thin(ctx, image_stream(ctx, rng, for_search=True), lambda i: (i.fmt, i.tag.split('/')[0]),
+                      keep=lambda i: i.tag.startswith('known/'))
         for img in imgs:
             ctx.count('search/' + img.tag.split('/')[0])
             stream_oracle(ctx, img, search_family(ctx, img, rng, full), rng, fails, budget_pokes=6 if full else 3,
                           presentations=5 if full else (1 if ctx.quick else 3))
             if enough():
                 break
-        for img in rng.sample(imgs, min(len(imgs), 25 if ctx.quick else 120)) + [i for i in imgs if i.tag.startswith('known/')]:
+        for img in rng.sample(imgs, min(len(imgs), G.scale(ctx, 25 if ctx.quick else 120, least=6))) + [i for i in imgs if i.tag.startswith('known/')]:
             if enough():
                 break
             n = len(img.data)
@@ -871,7 +881,7 @@ def replay(ctx, payload):
         sizes = G.unpack_sizes(case['sizes_b'])
         al, ex, drive, k, form = case.get('allowed'), case.get('expected'), case['drive'], case.get('k', 1), case.get('form', 0)
         plain = wrap_core(G.run_wrap_x(al, ex, data, G.drive_sizes(sizes, drive, k)))
-        got = wrap_core('\t' + G.drive_wrapper(data, sizes, drive, al, ex, k, form))
+        got = wrap_core('\t' + G.drive_wrapper(data, sizes, drive, al, ex, k, form, case.get('subclass')))
         model = wrap_core(G.model_replies(ctx, case['fmt'], case['content'], [G.drive_sizes(sizes, drive, k)], 'wrap', al, ex)[0])
         print('InspectWrapper(allowed_formats=%s, expected_format=%s), %d bytes, chunks %s' % (al, ex, len(data), case['sizes_b'][:12]))
         print('  implementation, read() + close()        :', plain[:1500])
